@@ -397,8 +397,13 @@ Fixpoint lookup_script (tbl : list (N * lscript)) (i : N) : lscript :=
   | (j, s) :: r => if j =? i then s else lookup_script r i
   end.
 
-Definition total_attempts (tbl : list (N * lscript)) : nat :=
-  fold_right (fun e acc => (length (attempts (snd e)) + acc)%nat) O tbl.
+(* all leaf occurrences of a tree; the fuel of the suspend/resume loop is one more than the number of
+   lookups they can start *)
+Fixpoint leaf_ids (n : node) : list N :=
+  match n with Leaf i => [i] | Inner _ _ cs => flat_map leaf_ids cs end.
+Definition tree_leaf_ids (t : tree) : list N := flat_map leaf_ids (rules t).
+Definition tree_attempts (scr : N -> lscript) (t : tree) : nat :=
+  fold_right (fun i acc => (length (attempts (scr i)) + acc)%nat) O (tree_leaf_ids t).
 
 Inductive mode := MNonBlocking | MFast | MFastList.
 
@@ -408,7 +413,7 @@ Definition run_check (m : mode) (t : tree) (bans : list answer) (tbl : list (N *
   let c0 := init_st bans (fun i => attempts (scr i)) in
   if negb (tree_ok t) then Some (set_err true c0) else
   match m with
-  | MNonBlocking => nb_loop scr (S (total_attempts tbl)) t (nonBlockingCheck scr t c0)
+  | MNonBlocking => nb_loop scr (S (tree_attempts scr t)) t (nonBlockingCheck scr t c0)
   | MFast => Some (fastCheck scr t c0)
   | MFastList => Some (fastCheckList scr t c0)
   end.
@@ -417,4 +422,66 @@ Definition final_answer (m : mode) (c : st) : answer :=
   match m with
   | MNonBlocking => match cbk c with Some a => a | None => ans c end
   | _ => ans c
+  end.
+
+(* ---------- reference semantics: recursive first-match evaluation (the specification) ---------- *)
+(* The worth of a scripted leaf: its truth value once all its lookups have completed. A lookup that is
+   refused (ac = false: fast check; k >= 6: the seventh goAsync() call of one match() invocation) or that
+   does not really go asynchronous makes the leaf a mismatch, unless the leaf retries (rt) successfully. *)
+Fixpoint lval_k (ac rt tr : bool) (k : nat) (atts : list att) : bool :=
+  match atts with
+  | [] => tr
+  | a :: rest =>
+      if negb ac then false
+      else if (6 <=? k)%nat then false
+      else match a with
+           | Real => lval_k ac rt tr 0 rest
+           | Fake => if rt then lval_k ac rt tr (S k) rest else false
+           end
+  end.
+Definition leaf_value (nonblocking : bool) (s : lscript) : bool :=
+  lval_k nonblocking (retry s) (truth s) 0 (attempts s).
+
+(* does the expression match, given the values of the leaves *)
+Fixpoint eval (v : N -> bool) (n : node) : bool :=
+  match n with
+  | Leaf i => v i
+  | Inner _ k cs =>
+      match k with
+      | KNot => match cs with x :: _ => negb (eval v x) | [] => false end
+      | KAnd => forallb (eval v) cs
+      | KOr | KAnyOf => existsb (eval v) cs
+      | KAllOf => match cs with x :: _ => eval v x | [] => true end     (* all-of keeps its lines under one child *)
+      end
+  end.
+
+(* index (counted from idx) of the first rule that is not banned and matches *)
+Fixpoint first_from (v : N -> bool) (isb : N -> bool) (idx : N) (l : list node) : option N :=
+  match l with
+  | [] => None
+  | x :: r => if negb (isb idx) && eval v x then Some idx else first_from v isb (idx + 1) r
+  end.
+
+Definition rule_banned (t : tree) (bans : list answer) (pos : N) : bool :=
+  match actions t with
+  | [] => false
+  | _ => existsb (answer_eqb (nth_action t pos)) bans
+  end.
+
+Definition opposite (c : code) : code :=
+  match c with Denied => Allowed | Allowed => Denied | _ => Dunno end.
+
+(* the decision: (code, kind, implicit) *)
+Definition decide (m : mode) (v : N -> bool) (t : tree) (bans : list answer) : code * N * bool :=
+  match first_from v (rule_banned t bans) 0 (rules t) with
+  | Some pos =>
+      match actions t with
+      | [] => (Allowed, 0, false)
+      | _ => (acode (nth_action t pos), akind (nth_action t pos), false)
+      end
+  | None =>
+      match m with
+      | MFastList => (Denied, 0, false)
+      | _ => (opposite (acode (last (actions t) (action Dunno 0))), 0, true)
+      end
   end.
